@@ -123,7 +123,7 @@ class FuncResult:
 
 def only_params(t: Tok) -> Tok:
     """restrict to tokens meaningful across function boundaries"""
-    return frozenset(x for x in t if not (x.startswith('CALL:') or x.startswith('ITER:')
+    return frozenset(x for x in t if not (x.startswith('CALL:') or x.startswith('ITER:') or x.startswith('CUT:')
                                           or x.startswith('PREV:') or x.startswith('LOCAL:')))
 
 
@@ -265,9 +265,12 @@ class DepEngine:
             dirty = nxt
         self.rounds = rounds
 
-    def analyze(self, q: str, force: Optional[Dict[int, str]] = None, assume_none: Optional[Set[str]] = None) -> FuncResult:
-        """Re-analyse one function, optionally forcing arms of given `if` nodes (id(node) -> 'body'|'orelse')."""
-        return FuncWalker(self, self.prog.func(q), force=force or {}).run()
+    def analyze(self, q: str, force: Optional[Dict[int, str]] = None, data_only: bool = False,
+                cut: Optional[Set[str]] = None) -> FuncResult:
+        """Re-analyse one function. force: id(if node) -> 'body'|'orelse' (branch-mode slicing);
+        data_only: ignore control dependence (explicit flows only); cut: variables whose every assignment is
+        replaced by the fresh source CUT:<name> ("holding <name> fixed")."""
+        return FuncWalker(self, self.prog.func(q), force=force or {}, data_only=data_only, cut=cut).run()
 
     def result(self, q: str) -> FuncResult:
         self.prog.func(q)
@@ -275,7 +278,10 @@ class DepEngine:
 
 
 class FuncWalker:
-    def __init__(self, eng: DepEngine, f: FuncInfo, force: Optional[Dict[int, str]] = None):
+    def __init__(self, eng: DepEngine, f: FuncInfo, force: Optional[Dict[int, str]] = None,
+                 data_only: bool = False, cut: Optional[Set[str]] = None):
+        self.data_only = data_only
+        self.cut = cut or set()
         self.eng = eng
         self.prog = eng.prog
         self.f = f
@@ -349,10 +355,6 @@ class FuncWalker:
             res.ret_comps = [only_params(frozenset().union(*[c[i] for c in real])) for i in range(n)]
         # mutated params
         for p in self.params:
-            v = res.exit_env.get(p, E)
-            w = only_params(v) - {'P:' + p}
-            # writes into p: tokens that are not refinements of p itself
-            w = frozenset(x for x in w if not x.startswith('P:' + p + '.'))
             if self._mutated.get(p):
                 res.mut[p] = only_params(self._mutated[p])
         first = self.f.pos_params[0] if (self.f.cls and self.f.pos_params and not self.f.is_static) else None
@@ -369,6 +371,8 @@ class FuncWalker:
 
     # ------------------------------------------------------------- utilities
     def _ctl(self) -> Tok:
+        if self.data_only:
+            return E
         out = set()
         for c in self.ctl:
             out |= c
@@ -550,11 +554,20 @@ class FuncWalker:
         return st
 
     def _note_mut(self, st, var, v, node):
-        """a write through `var` is a write into every parameter object it may alias"""
-        for p in st.alias.get(var, ()):
+        """a write through `var` is a write into every parameter object it may alias, and is visible through every
+        local that may hold the same object"""
+        mine = st.alias.get(var, frozenset())
+        for p in mine:
+            if p.startswith('L:'):
+                continue
             self._mutated[p] = self._mutated.get(p, E) | v | self._ctl()
-            if p != var and p in st.env:
-                st.env[p] = st.env[p] | v | self._ctl()
+        if mine:
+            add = v | self._ctl()
+            for other, al in st.alias.items():
+                if other != var and other in st.env and (al & mine):
+                    st.env[other] = st.env[other] | add
+                    if other in st.comps:
+                        st.comps[other] = tuple(c | add for c in st.comps[other])
 
     def _alias_of(self, e: Optional[ast.expr], st: _State) -> FrozenSet[str]:
         """parameters whose object (or a part / view of it) the value of e may be"""
@@ -608,6 +621,8 @@ class FuncWalker:
         if isinstance(target, ast.Name):
             name = target.id
             val = v | ctl
+            if name in self.cut:
+                val = frozenset({'CUT:' + name})
             # loop bookkeeping for ACC: iteration-dependent and not accumulating?
             did = self._defid(node, name, kind, rhs)
             d = self.defrecs[did]
@@ -625,7 +640,15 @@ class FuncWalker:
                 del st.env[k]
             st.comps.pop(name, None)
             st.types.pop(name, None)
-            st.alias[name] = self._alias_of(rhs, st) if rhs is not None else st.alias.get('<iter>', frozenset())
+            if rhs is not None:
+                al = self._alias_of(rhs, st)
+            elif '<iter>' in st.alias:
+                al = st.alias['<iter>']
+            else:
+                al = frozenset()
+            if not al and not isinstance(rhs, (ast.Constant,)) and '<iter>' not in st.alias:
+                al = frozenset({'L:%d' % did})      # a fresh local object
+            st.alias[name] = al
             if rhs is not None:
                 if isinstance(rhs, (ast.Tuple, ast.List)) and not any(isinstance(e, ast.Starred) for e in rhs.elts):
                     st.comps[name] = tuple(self.ev(e, st, quiet=True) | ctl for e in rhs.elts)
